@@ -585,7 +585,9 @@ def agree(c, a, b):
             return False
         # the direction of a particle left with (numerically) zero energy is the
         # normalised difference of two equal momenta: ill-conditioned, not compared
-        stopped = c.model in ("mb", "muhad_bb", "muhad_mubb", "muhad_bragg") and abs(a["E"]) <= 1e-9 * c.E
+        # (an exactly stopped primary, E' = 0, keeps the incident direction since /repo a57af2a: compared)
+        stopped = (c.model in ("mb", "muhad_bb", "muhad_mubb", "muhad_bragg") and abs(a["E"]) <= 1e-9 * c.E
+                   and not (a["E"] == 0.0 and b["E"] == 0.0))
         patol = 1e-9
         if c.model in ("mb", "muhad_bb", "muhad_mubb", "muhad_bragg") and _at_tmax(c, a):
             patol = 1e-6
